@@ -34,6 +34,10 @@ func routeHandler(name string, vars []string) rux.HandlerFunc {
 		rec.Route = name
 		rec.Params = copyParams(c.Params)
 		rec.Ev("params-is-nil=%v", c.Params == nil)
+		if rec.Extra == nil {
+			rec.Extra = map[string]any{}
+		}
+		rec.Extra["params_map_itself"] = c.Params // kept beyond the request (as a logger or a background job would)
 		rec.ParamVia = map[string]string{}
 		for _, v := range vars {
 			rec.ParamVia[v] = c.Param(v)
@@ -124,6 +128,20 @@ func routingCase(t *T, params bool) {
 	router := BuildRouter(tb, opts...)
 	t.AutoSample()
 
+	// parameter maps that handlers kept beyond their request: they belong to that request for good
+	var retained []retainedParams
+	if params {
+		defer func() {
+			for _, rp := range retained {
+				t.Count("params.retained_maps_rechecked", 1)
+				if now := fmtParams(copyParams(rp.m)); now != rp.snap {
+					probeLog = append(probeLog, "retained params of "+rp.req)
+					t.Fail("retained-params-changed-by-later-requests", "the Params map handed to the handler of %s was {%s}; after later requests on the same router the same map reads {%s}", rp.req, rp.snap, now)
+					return
+				}
+			}
+		}()
+	}
 	paths := tb.ProbePaths(r, 2, 5)
 	tableKey := fmt.Sprint(tb.Describe())
 	if params && !encoded && !strict {
@@ -264,6 +282,9 @@ func routingCase(t *T, params bool) {
 					t.Fail("servehttp-no-route-status", "ServeHTTP(%s %q): no route qualifies, expected the default 404, got status %d", method, path, rec.Status())
 				}
 			} else if got >= 0 {
+				if m, _ := rec.Extra["params_map_itself"].(rux.Params); m != nil && len(retained) < 400 {
+					retained = append(retained, retainedParams{m, fmtParams(rec.Params), method + " " + path})
+				}
 				checkParams(t, tb, got, method, path, snpath, rec.Params, false, "ServeHTTP handler", &probeLog)
 				// c.Param(name) view
 				vs, _ := tb.Routes[got].Pat.Vars()
@@ -337,6 +358,12 @@ func redispatchProbes(t *T, tb *Table, router *rux.Router, paths []Probe, probeL
 		}
 		checkParams(t, tb, got, "GET", to.path, to.npath, rec.Params, false, "handler after re-dispatch from "+from.path, probeLog)
 	}
+}
+
+type retainedParams struct {
+	m    rux.Params
+	snap string
+	req  string
 }
 
 func rname(tb *Table, i int) string {
